@@ -21,7 +21,7 @@ CHUNK = 8
 
 def _worker(args):
     prop, seed, tier, start, n = args
-    faulthandler.dump_traceback_later(600, exit=True)
+    faulthandler.dump_traceback_later(900, exit=True)
     out = []
     for idx in range(start, start + n):
         case = runner.make_case(prop, seed, idx, tier)
@@ -62,6 +62,8 @@ class Agg:
         self.samples = []
         self.restarts = 0
         self.known = {}
+        self.sys_total = 0
+        self.sys_exact = 0
 
     def add(self, r):
         self.runs += 1
@@ -73,6 +75,10 @@ class Agg:
         self.cases.update(r.get("cases", ()))
         if r.get("word"):
             self.words.add(r["word"])
+        if r.get("idx", 0) >= runner.SYSTEMATIC_BASE:
+            self.sys_total += 1
+            if r.get("word") == runner.systematic_words()[r["idx"] - runner.SYSTEMATIC_BASE]:
+                self.sys_exact += 1
         if r.get("aborted"):
             self.aborts[r["aborted"]] = self.aborts.get(r["aborted"], 0) + 1
         if "final_hash" in r:
@@ -123,14 +129,23 @@ def run_batch(prop: str, tier: str, seed: int, n_runs: int | None, budget_s: flo
     deadline = t0 + budget_s if budget_s else None
     total = n_runs if n_runs else 10**9
     pending = set()
+    # systematic layer (C02 thorough): every {E,U,R}-word up to length 6, once
+    sys_left = []
+    if prop == "C02" and tier == "thorough":
+        n_words = len(runner.systematic_words())
+        sys_left = [(runner.SYSTEMATIC_BASE + i, min(CHUNK * 4, n_words - i)) for i in range(0, n_words, CHUNK * 4)]
     with cf.ProcessPoolExecutor(max_workers=jobs, mp_context=ctx) as ex:
         def submit():
             nonlocal next_idx
+            while sys_left and len(pending) < jobs * 2:
+                start, n = sys_left.pop(0)
+                pending.add(ex.submit(_worker, (prop, seed, tier, start, n)))
             while len(pending) < jobs * 2 and next_idx < total and (deadline is None or time.time() < deadline):
                 n = min(CHUNK, total - next_idx)
                 pending.add(ex.submit(_worker, (prop, seed, tier, next_idx, n)))
                 next_idx += n
         submit()
+        broken = False
         hard = (t0 + budget_s * 2 + 300) if budget_s else t0 + 3600
         while pending:
             done, _ = cf.wait(pending, timeout=30, return_when=cf.FIRST_COMPLETED)
@@ -138,8 +153,18 @@ def run_batch(prop: str, tier: str, seed: int, n_runs: int | None, budget_s: flo
                 raise RuntimeError("batch exceeded its hard wall-clock limit")
             for f in done:
                 pending.discard(f)
-                for r in f.result():
+                try:
+                    results = f.result()
+                except Exception as e:  # noqa: BLE001 - a dead worker is a harness error, never exit 0
+                    agg.harness.append((-1, f"worker failed: {type(e).__name__}: {e}"))
+                    broken = True
+                    continue
+                for r in results:
                     agg.add(r)
+            if broken:
+                for f in pending:
+                    f.cancel()
+                break
             if len({signature(v) for _, v in agg.viol}) < 6:
                 submit()
     agg.wall = time.time() - t0
